@@ -7,6 +7,7 @@
 //	pool <cfg> <op>...   a history on a real grpcadapter.AdaptedClientPool used directly (New / Get / controller Close)
 //
 //	conc <seed> <goroutines> <ops>   goroutines use one real AdaptedClientPool concurrently (see execConc)
+//	slowrr / slowres …               removal while a slow reflection resolution is in flight (see slow.go)
 //
 // cfg = p<0|1>r<0|1>: p1 = reflection polling enabled (1s interval), p0 = WithDisabledReflectionPolling;
 // r1 = the target server serves the reflection API, r0 = it does not (every resolution fails).
@@ -671,6 +672,12 @@ func execLine(input string) string {
 	if len(f) > 0 && f[0] == "conc" {
 		return execConc(f)
 	}
+	if len(f) > 0 && f[0] == "slowrr" {
+		return execSlowRouter(f)
+	}
+	if len(f) > 0 && f[0] == "slowres" {
+		return execSlowResolver(f)
+	}
 	if len(f) < 2 || (f[0] != "rr" && f[0] != "pool") || len(f[1]) != 4 {
 		return "BADOP"
 	}
@@ -821,6 +828,28 @@ func (Area) Gen(r *rand.Rand, tier string, emit func(string)) {
 		"N0o N1f N1o G1 C1 K1 K0", "K0 G0 S0", "N0o K0 K0", "N0f N0f N0o K0 N0f N0o",
 	} {
 		line("pool", "p0r0", strings.Fields(h))
+	}
+
+	// 1b. removal while a slow reflection resolution is in flight (see slow.go). Resolver level (request timeout
+	// 300 ms, < 2 s each): closed 0/60/120 ms into a 450 ms resolution (the rest outlasts one request timeout),
+	// during the second request (rest shorter than a timeout), and when the poller is idle; with and without polling,
+	// with and without an observation window longer than the poll interval.
+	for _, l := range []string{
+		"slowres 300 150 0 1 0", "slowres 300 150 60 1 1300", "slowres 300 150 120 0 0",
+		"slowres 300 150 250 1 0", "slowres 300 100 700 1 0", "slowres 200 400 30 0 200",
+	} {
+		emit(l)
+	}
+	// Router level: the request timeout is the fixed 10 s default, one case costs 11–13 s.
+	emit("slowrr 1500 50 1 0")
+	if tier == "thorough" {
+		for _, l := range []string{
+			"slowres 300 150 30 1 2300", "slowres 500 100 0 0 0", "slowres 100 350 200 1 1200", "slowres 300 290 280 1 0",
+			"slowres 1000 50 0 1 0", "slowres 300 150 449 1 0", "slowres 300 150 460 1 0",
+			"slowrr 2000 0 1 1200", "slowrr 1000 500 0 0", "slowrr 3000 2500 1 0", "slowrr 500 2000 1 0",
+		} {
+			emit(l)
+		}
 	}
 
 	// 2. every history up to a small length over a small alphabet
